@@ -159,6 +159,60 @@ def exhaustive(chk, kind, keys, n, eqm, hm, name):
     return len(nodes)
 
 
+def mixed(chk, eqm, const_hash, name):
+    """XrSetMix: binary set operations whose operands were built with different (hash, equality) pairs."""
+    d = vf.workdir("c17-mix-cfg-" + name)
+    cfg = d + "/XrSetMix.cfg"
+    with open(cfg, "w") as f:
+        f.write("SPECIFICATION Spec\nCONSTANTS Eqm = %d\nINVARIANT Emit\nINVARIANT KindOfLeft\nCHECK_DEADLOCK FALSE\n" % eqm)
+    r = vf.tlc("XrSetMix", cfg, "c17-mix-" + name, workers=1, timeout=600)
+    if not r.ok:
+        raise vf.ToolError("XrSetMix failed:\n" + r.out[-2500:])
+    chk.add_tlc(r)
+    cases = r.cases()
+    hashf = "(x: int) -> {0}" if const_hash else "(x: int) -> {x %% %d}" % eqm
+    head = "let ka = set(%s, (p: int, q: int) -> {p %% %d == q %% %d});\nlet kb = set<int>();\n" % (hashf, eqm, eqm)
+    sym = {"bit_and": "&", "bit_or": "|", "bit_xor": "^", "sub": "-"}
+    np_ = 2 * eqm + 1
+    jobs, meta = [], {}
+    for b0 in range(0, len(cases), 16):
+        chunk = cases[b0:b0 + 16]
+        lines = [head]
+        for k, c in enumerate(chunk):
+            lines.append("let a%d = ka.update(%s);\nlet b%d = kb.update(%s);\n" % (k, json.dumps(c["a"]), k, json.dumps(c["b"])))
+            x, y = ("a%d" % k, "b%d" % k) if c["left"] == "A" else ("b%d" % k, "a%d" % k)
+            lines.append("let r%d = %s %s %s;\n" % (k, x, sym[c["op"]], y))
+            lines.append("let o%d = (r%d.len(), a%d.len(), b%d.len(), [%s], [%s]);\n" % (
+                k, k, k, k, ", ".join("r%d.contains(%d)" % (k, p) for p in range(np_)), ", ".join("r%d.add(%d).len()" % (k, p) for p in range(np_))))
+        jid = "%s-%d" % (name, b0)
+        jobs.append({"id": jid, "src": "".join(lines), "observe": ["o%d" % k for k in range(len(chunk))], "limits": {"calls": 2000000}, "timeout_ms": 60000})
+        meta[jid] = chunk
+    res = vf.run_jobs(jobs, "c17-mix-" + name)
+    for j in jobs:
+        o = res[j["id"]]
+        if vf.job_outcome(o) != "ok":
+            chk.violation("mixed-kind set program: %s %s" % (vf.job_outcome(o), str(o.get("compile", {}).get("msg") or o.get("inst") or o.get("crash"))[:300]),
+                          {"kind": "map", "source": j["src"], "observed": vf.job_outcome(o)})
+            continue
+        for k, c in enumerate(meta[j["id"]]):
+            chk.count(1)
+            chk.nontrivial([name, c["a"], c["b"], c["op"], c["left"]])
+            dv = o["values"].get("o%d" % k) or {}
+            try:
+                f = dv["v"]
+                got = [int(f[0]["v"]), int(f[1]["v"]), int(f[2]["v"]), [x["v"] for x in f[3]["v"]], [int(x["v"]) for x in f[4]["v"]]]
+            except Exception:
+                got = None
+            want = [c["len"], c["alen"], c["blen"], c["has"], c["addlen"]]
+            if got != want:
+                x, y = ("a", "b") if c["left"] == "A" else ("b", "a")
+                chk.violation("a = (eq mod %d).update(%s), b = set<int>().update(%s), r = %s %s %s: (len, a.len, b.len, contains(0..%d), add(p).len) expected %s, observed %s" %
+                              (eqm, c["a"], c["b"], x, sym[c["op"]], y, np_ - 1, json.dumps(want), json.dumps(got if got is not None else dv)[:200]),
+                              {"kind": "map", "source": j["src"], "binding": "o%d" % k, "expected": want, "observed": dv},
+                              finding_key="mixed:%s:%s" % (c["op"], c["left"]))
+    chk.part("mixed_" + name, eq_mod=eqm, constant_hash=const_hash, cases=len(cases))
+
+
 def run(chk, tier, seed, name="c17"):
     n = 2000 if tier == "quick" else 8000
     if tier == "dev":
@@ -260,6 +314,8 @@ def run(chk, tier, seed, name="c17"):
             chunk = chunk[k + 1:]
     chk.part("histories", programs=len(jobs), tables_validated=len(tables))
     if tier != "dev":
+        mixed(chk, 3, False, "mix3")
+        mixed(chk, 2, True, "mix2c")
         exhaustive(chk, "set", [0, 1, 2], 5, 0, 2, "set-h2")
         exhaustive(chk, "map", [0, 1, 2], 4, 0, 2, "map-h2")
         if tier == "thorough":
@@ -273,7 +329,9 @@ def run(chk, tier, seed, name="c17"):
                        "{identity, mod 2, mod 3} x {injective, mod 2, mod 3, constant}; every version read back at the end; "
                        "non-trivial = distinct rendered program; plus XrMapEx: EVERY linear history of <= 5 set updates (add, discard, "
                        "remove) / <= 4 mapping updates (set, set_default, discard, pop) over 3 keys with a colliding hash, model-checked "
-                       "breadth-first by TLC and read back version by version (exhaustive within these bounds)")
+                       "breadth-first by TLC and read back version by version (exhaustive within these bounds); plus XrSetMix: every "
+                       "binary set operation (&, |, ^, -) between a set over residue classes and a default set, every pair of subsets, both "
+                       "operand orders: the result behaves as a set of the left operand's kind")
     chk.assumptions += ["hashes outside [0, 2^64) are covered by C19/C17 templates only", "iteration order is not compared (entries are compared as sorted class/value pairs)"]
 
 
